@@ -14,6 +14,7 @@ def K(prefix, name, clause, kind='P', tier='quick', fns=(), bound=None):
 
 
 PROPS = {}
+TABLE_MODEL = {'file': 'native/table_model.rs', 'attach': 'src/table.rs', 'test': 'table_matches_reference_model'}
 
 PROPS['C03'] = {
     'level': 'proof',
@@ -45,6 +46,7 @@ PROPS['C03'] = {
 PROPS['C11'] = {
     'level': 'proof',
     'verus': [{'unit': 'table', 'fns': ['ClaimTable::lookup', 'ClaimTable::housekeep', 'ClaimTable::cache', 'ClaimTable::new', 'lemma_filter.*']}],
+    'native_search': {r'table::.*': TABLE_MODEL},
     'kani': {
         'files': {'src/types.rs': ['kani/types.rs'], 'src/cloud.rs': ['kani/cloudblocks.rs.in']},
         'harnesses': [
@@ -207,7 +209,8 @@ TABLE_TRUSTED = [
 PROPS['C12'] = {
     'level': 'proof',
     'verus': [{'unit': 'table', 'fns': TABLE_FNS}],
-    'native_search': {'table::ClaimTable::set_claims': {'file': 'native/table_setclaims.rs', 'attach': 'src/table.rs', 'test': 'claims_equal_last_announcement'}},
+    'native_search': {'table::ClaimTable::set_claims': {'file': 'native/table_setclaims.rs', 'attach': 'src/table.rs', 'test': 'claims_equal_last_announcement'},
+                      r'table::.*': TABLE_MODEL},
     'trusted': TABLE_TRUSTED,
     'not_decided': [
         'node level: "when a peer is removed for any reason no claim keeps pointing at it" needs GenericCloud::{housekeep, remove_peer, crypto_housekeep, add_new_peer} (HashMap iteration, sockets, handshake objects): crypto_housekeep removes a peer without remove_claims - reading only, no obligation stated',
@@ -219,6 +222,13 @@ PROPS['C08'] = {
     'level': 'proof',
     'level_text': 'Proof for the per-peer receive path: MsgBuffer, CryptoCore::decrypt/encrypt (buffer geometry) and PeerCrypto::{handle_message, decrypt_message, encrypt_message, send_message} verbatim in Verus: for EVERY well-formed buffer (any length incl. 0, any content) and every state of the peer object every callee precondition (index bounds, arithmetic, assert!) is established, i.e. no panic. The variable-length decoders behind the handshake marker (InitMsg::read_from, NodeInfo::decode, RotationMessage) are NOT decided.',
     'verus': [{'unit': 'buffer'}],
+    'kani': {
+        'files': {'src/crypto/core.rs': ['kani/coreblocks.rs.in', 'kani/core.rs']},
+        'harnesses': [
+            K(CORE, 'decrypt_with_key_contract', 'a datagram that fails verification (too old, or rejected by the AEAD) leaves no state behind in the key slot: min/next/seen/send counters unchanged', fns=['crypto::core::CryptoCore::decrypt_with_key']),
+            H_DEC,
+        ],
+    },
     'native_search': {'buffer::CryptoCore::decrypt': {'file': 'native/core_short_datagram.rs', 'attach': 'src/crypto/core.rs', 'test': 'decrypt_is_total_on_short_datagrams'}},
     'trusted': [
         'env (NOT decided): PeerCrypto::handle_init_message -> InitState::handle_init -> InitMsg::read_from is assumed total on every well-formed buffer (150-line TLV parser over Cursor/SmallVec; neither back end reaches it)',
@@ -238,6 +248,7 @@ PROPS['C13'] = {
     'level': 'proof',
     'level_text': 'Proof of the three per-function ingredients of switch learning: (1) Frame::parse yields the per-VLAN key (8-byte vid||mac for a 12-bit VLAN id != 0, 6-byte mac for untagged AND priority-tagged frames, PCP/DEI and nested tags ignored) for every frame (Kani, full content); (2) the learned entry is ClaimTable::cache (last writer wins, expires after the switch timeout, removed by housekeep when expired and by remove_claims when the peer goes) (Verus); (3) the mode table: learning exactly for switch (and normal/tap), never for hub/router (Kani block). The call site `if self.learning { self.table.cache(src, peer) }` is under contract in unit cloud (C10).',
     'verus': [{'unit': 'table', 'fns': ['ClaimTable::cache', 'ClaimTable::housekeep', 'ClaimTable::remove_claims', 'ClaimTable::lookup', 'ClaimTable::new', 'lemma_.*']}],
+    'native_search': {r'table::.*': TABLE_MODEL},
     'kani': {
         'files': {'src/payload.rs': ['kani/payload.rs'], 'src/cloud.rs': ['kani/cloudblocks.rs.in']},
         'harnesses': [
